@@ -17,6 +17,7 @@ import (
 	"path/filepath"
 	"strconv"
 	"strings"
+	"sync/atomic"
 	"syscall"
 	"time"
 )
@@ -345,15 +346,15 @@ type World struct {
 	GoMax   string
 }
 
-var worldCounter int
+var worldCounter atomic.Int64
 
 func NewWorld(bin string, clock *Clock, rnd *RandStream) *World {
-	worldCounter++
+	wn := worldCounter.Add(1)
 	base := "/dev/shm"
 	if st, err := os.Stat(base); err != nil || !st.IsDir() {
 		base = os.TempDir()
 	}
-	root := filepath.Join(base, fmt.Sprintf("ergosim.%d.%d", os.Getpid(), worldCounter))
+	root := filepath.Join(base, fmt.Sprintf("ergosim.%d.%d", os.Getpid(), wn))
 	os.RemoveAll(root)
 	if err := os.MkdirAll(filepath.Join(root, "proj"), 0o755); err != nil {
 		harnessf("mkdir world: %v", err)
